@@ -65,7 +65,8 @@ TCrashOpenBad == /\ l <= Len(Trace) /\ Ev.op = "crashopen" /\ ~ImageOK
                                                open_ok |-> OpenOKIn(kv, Ev.open.f)])>>)
                  /\ FALSE /\ UNCHANGED tvars
 
-TFreezeRet == Step_(/\ Ev.op = "freezeret" /\ pc = "idle"
+(* Freeze() returned: the cycle ran to its end and nothing that could be frozen is left *)
+TFreezeRet == Step_(/\ Ev.op = "freezeret" /\ pc = "idle" /\ ~CanCopy
                     /\ SameProj(Ev.proj, kv, fz.vol) /\ CanonReadableIn(kv, fz.vol)
                     /\ SideGone /\ CanonMoved
                     /\ UNCHANGED vars)
